@@ -111,6 +111,10 @@ def dec_port(s):
         return True
     if s == "X":
         return "80"
+    if s == "Z":
+        return False
+    if s.startswith("D"):
+        return float(int(s[1:]))
     return int(s)
 
 
